@@ -237,7 +237,12 @@ def _unpack_stack(scope, only_errors=True):
 
 
 def _format_trace_value(value, maxlen):
-    s = bbrepr(value).replace("\\'", "'")
+    try:
+        s = bbrepr(value)
+    except RecursionError:
+        # a value that contains itself: the builtin repr marks the cycle
+        s = repr(value)
+    s = s.replace("\\'", "'")
     if len(s) > maxlen:
         try:
             suffix = '... (len=%s)' % len(value)
